@@ -1507,10 +1507,21 @@ func build(tier string) []*vkit.Scenario {
 		core(fewE[1:2], shutdownCases, "shutdown-bg", 1, false)
 		core(fewE[:1], singles, "stop", 1, true)
 		core(fewE[:1], quiet(light(singles, true)), "stop", 2, true)
-		httpS(hCheap[:2], hsingles, "nb", "stop", 2, false)
-		httpS(hCheap[2:], hsingles, "nb", "stop", 1, false)
-		httpS(hCheap[:2], hsingles, "nb", "shutdown-bg", 2, false)
-		httpS(hCheap[2:], hsingles, "nb", "shutdown-bg", 1, false)
+		// the accepted connection with a request racing is by far the largest HTTP scenario with
+		// the goroutine-per-job executor: full bound with the inline executor, P<=1 with "go"
+		// (thorough runs it at P<=3)
+		var hsNoBig []hcase
+		for _, c := range hsingles {
+			if !(c.listen && len(c.hist) == 1 && c.racer == "request") {
+				hsNoBig = append(hsNoBig, c)
+			}
+		}
+		httpS(hCheap[:1], hsingles, "nb", "stop", 2, false)
+		httpS(hCheap[1:2], hsNoBig, "nb", "stop", 2, false)
+		httpS(hCheap[1:], hsingles, "nb", "stop", 1, false)
+		httpS(hCheap[:1], hsingles, "nb", "shutdown-bg", 2, false)
+		httpS(hCheap[1:2], hsNoBig, "nb", "shutdown-bg", 2, false)
+		httpS(hCheap[1:], hsingles, "nb", "shutdown-bg", 1, false)
 		httpS(hCheap[:1], hsingles[:8], "nb", "shutdown-ctx", 2, false)
 		httpS(hCheap[:2], hdoubles, "nb", "stop", 1, false)
 		httpS(hPool, poolQuick, "nb", "stop", 1, false)
@@ -1518,8 +1529,9 @@ func build(tier string) []*vkit.Scenario {
 		httpS(hProduct, productCases[:2], "nb", "stop", 1, false)
 		httpS(hProduct, productCases[:2], "nb", "shutdown-bg", 1, false)
 		httpS(hCheap[1:2], mixedCases, "mixed", "stop", 0, false)
-		httpS(hCheap[1:2], mixedCases[:2], "mixed", "shutdown-bg", 0, false)
-		httpS(hCheap[:2], hsingles, "nb", "stop", 1, true)
+		httpS(hCheap[1:2], mixedCases[:1], "mixed", "shutdown-bg", 0, false)
+		httpS(hCheap[:1], hsingles, "nb", "stop", 1, true)
+		httpS(hCheap[1:2], hsNoBig, "nb", "stop", 1, true)
 		return spread(out)
 	}
 	// thorough: one more preemption everywhere it is affordable; the families whose interleaving
